@@ -2,6 +2,7 @@ import ScriggoV.Lemmas.BuiltinsJSON
 import ScriggoV.Lemmas.BuiltinsQuery
 import ScriggoV.Lemmas.BuiltinsAbbr
 import ScriggoV.Lemmas.BuiltinsText
+import ScriggoV.Gen.ReflectGuards
 /-! C25 — builtin functions honour their documentation and never panic instead of erroring.
 Property theorems only, for all inputs; loop invariants and table facts are in
 `Lemmas/Builtins*.lean`, `Lemmas/Runes.lean`. The table `lookupJSONSpace` (with its length),
@@ -371,5 +372,97 @@ theorem formatFloatVerb_spec (format : Bytes) :
     exact ⟨fun e => this (Or.inl e), fun e => this (Or.inr (Or.inl e)), fun e => this (Or.inr (Or.inr e))⟩
 
 example : goReverse [1, 2, 3, 4, 5] = .ok [5, 4, 3, 2, 1] := by rfl
+
+/-! ### Argument kinds: the builtins that apply package reflect to an argument of type `any`
+
+`Gen/ReflectGuards.lean` is the body of every such function (today UnmarshalJSON, UnmarshalYAML,
+Reverse, Sort) as regenerated from builtin.go: its checks, its reflect operations in evaluation
+order, its returns and documented panics. `outcomes prog a` is everything that can happen when it
+is called with the abstract argument `a` (the nil interface, or a value of one of the 27 kinds,
+zero or not), the conditions that are not about the argument being followed both ways; a reflect
+operation whose documented precondition (`Spec/Reflect.lean`) fails is the outcome `panic`. -/
+section ArgumentKinds
+open ScriggoV.Reflect ScriggoV.Gen.ReflectGuards
+
+/-- **Every reflect operation is dominated by the checks that establish its precondition**: in
+none of the functions, for no argument (of any kind, nil or not, zero or not) and whatever the
+other conditions evaluate to, does a reflect operation panic — `rv.Type()` only after `v == nil`
+has returned, `rt.Elem()` / `rv.Elem()` / `Set` only after `rv.Kind() != reflect.Pointer` and
+`rv.IsZero()` have returned, `rv.Len()` / `reflect.Swapper` / `sort.Slice` / `v.Index` only after
+the non-slice panic. -/
+theorem reflect_ops_guarded (p : String × List Stmt) (hp : p ∈ progs) (a : Arg) :
+    ∀ o ∈ outcomes p.2 a, o.isPanic = false := by
+  have h : progs.all (fun p => Arg.all.all (fun a => neverPanics p.2 a)) = true := by decide
+  have h1 := Arg.forall_of_all _ (List.all_eq_true.mp h p hp) a
+  intro o ho
+  have := List.all_eq_true.mp h1 o ho
+  simpa using this
+
+/-- the statement is about these functions -/
+theorem reflect_progs_names :
+    progs.map (·.1) = ["Reverse", "Sort", "UnmarshalJSON", "UnmarshalYAML"] := by decide
+
+/-- **UnmarshalJSON, documented errors** ("If v is nil or not a pointer, UnmarshalJSON returns an
+error"; also for a nil pointer): for exactly these arguments every path returns an error; for a
+non-nil pointer no path panics and the outcome is that of `json.Unmarshal` (error or nil). -/
+theorem unmarshalJSON_error_iff (a : Arg) :
+    (outcomes progUnmarshalJSON a).all Outcome.isErr = (a == .nilIface || !a.isPointer || a.isZero) ∧
+    (outcomes progUnmarshalJSON a).all (fun o => o.isErr || o.isOk) = true ∧
+    ((a.isPointer && !a.isZero) = true → (outcomes progUnmarshalJSON a).any Outcome.isOk = true) := by
+  refine ⟨?_, ?_, ?_⟩
+  · exact of_decide_eq_true (Arg.forall_of_all (fun a => decide
+      ((outcomes progUnmarshalJSON a).all Outcome.isErr = (a == .nilIface || !a.isPointer || a.isZero))) (by decide) a)
+  · exact Arg.forall_of_all (fun a => (outcomes progUnmarshalJSON a).all (fun o => o.isErr || o.isOk)) (by decide) a
+  · exact of_decide_eq_true (Arg.forall_of_all (fun a => decide
+      ((a.isPointer && !a.isZero) = true → (outcomes progUnmarshalJSON a).any Outcome.isOk = true)) (by decide) a)
+
+/-- **UnmarshalYAML, documented errors**: as for UnmarshalJSON. -/
+theorem unmarshalYAML_error_iff (a : Arg) :
+    (outcomes progUnmarshalYAML a).all Outcome.isErr = (a == .nilIface || !a.isPointer || a.isZero) ∧
+    (outcomes progUnmarshalYAML a).all (fun o => o.isErr || o.isOk) = true ∧
+    ((a.isPointer && !a.isZero) = true → (outcomes progUnmarshalYAML a).any Outcome.isOk = true) := by
+  refine ⟨?_, ?_, ?_⟩
+  · exact of_decide_eq_true (Arg.forall_of_all (fun a => decide
+      ((outcomes progUnmarshalYAML a).all Outcome.isErr = (a == .nilIface || !a.isPointer || a.isZero))) (by decide) a)
+  · exact Arg.forall_of_all (fun a => (outcomes progUnmarshalYAML a).all (fun o => o.isErr || o.isOk)) (by decide) a
+  · exact of_decide_eq_true (Arg.forall_of_all (fun a => decide
+      ((a.isPointer && !a.isZero) = true → (outcomes progUnmarshalYAML a).any Outcome.isOk = true)) (by decide) a)
+
+/-- **Reverse / Sort, documented panic** ("If slice is not a slice, it panics"): for a non-nil
+argument that is not a slice every path ends in the function's own `panic("reverse: …")` /
+`panic("sort: …")`; for a slice (nil or not) and for the nil interface no path panics at all. -/
+theorem reverse_sort_docPanic_iff (a : Arg) :
+    (outcomes progReverse a).all Outcome.isDocPanic = (a != .nilIface && !a.isSlice) ∧
+    (outcomes progSort a).all Outcome.isDocPanic = (a != .nilIface && !a.isSlice) ∧
+    ((a == .nilIface || a.isSlice) = true →
+      (outcomes progReverse a ++ outcomes progSort a).all (fun o => !o.isDocPanic && !o.isPanic) = true) := by
+  refine ⟨?_, ?_, ?_⟩
+  · exact of_decide_eq_true (Arg.forall_of_all (fun a => decide
+      ((outcomes progReverse a).all Outcome.isDocPanic = (a != .nilIface && !a.isSlice))) (by decide) a)
+  · exact of_decide_eq_true (Arg.forall_of_all (fun a => decide
+      ((outcomes progSort a).all Outcome.isDocPanic = (a != .nilIface && !a.isSlice))) (by decide) a)
+  · exact of_decide_eq_true (Arg.forall_of_all (fun a => decide
+      ((a == .nilIface || a.isSlice) = true →
+        (outcomes progReverse a ++ outcomes progSort a).all (fun o => !o.isDocPanic && !o.isPanic) = true)) (by decide) a)
+
+/-- the model tells the orders apart: with `rt.Elem()` evaluated before the kind check, an `int`
+argument reaches it and panics (`Type.Elem` of a type that has no element type) -/
+def elemBeforeKindCheck : List Stmt := [
+  .ite (.argNil 0 false) "v == nil" [.ret .err] [],
+  .op 1 (.valueOf 0) "reflect.ValueOf(v)",
+  .op 2 (.vType 1) "rv.Type()",
+  .op 3 (.tElem 2) "rt.Elem()",
+  .ite (.kindIs 1 .pointer true) "rv.Kind() != reflect.Pointer" [.ret .err] [],
+  .ret .ok]
+example : neverPanics elemBeforeKindCheck (.dyn .int false) = false := by decide
+example : neverPanics elemBeforeKindCheck (.dyn .slice false) = true := by decide
+example : outcomeNames elemBeforeKindCheck (.dyn .struct true) = ["panic:rt.Elem()"] := by decide
+example : outcomeNames progUnmarshalJSON (.dyn .pointer false) = ["left:err", "left:ok"] := by decide
+example : outcomeNames progReverse (.dyn .map false) = ["left:docpanic"] := by decide
+/-- without the nil check `rv.Type()` panics on the nil interface, and `Set` on a nil pointer -/
+example : neverPanics [.op 1 (.valueOf 0) "", .op 2 (.vType 1) ""] .nilIface = false := by decide
+example : neverPanics [.op 1 (.valueOf 0) "", .op 2 (.vElem 1) "", .op 3 (.new (2)) ""] (.dyn .pointer true) = false := by decide
+
+end ArgumentKinds
 
 end ScriggoV.Builtins
